@@ -15,6 +15,7 @@ package pfcp
 //@      (forall j int; k int :: 0 <= j && j < k && k < len(n.free) ==> n.free[j] != n.free[k])
 
 //@ func (n *LocalNode) Sess(lSeid uint64) (sess *Sess, err error)
+//@   locals i:int | sess:*pfcp.Sess
 //@   requires n != nil && lnodeWF(n)
 //@   ensures [found]  (err == nil) == live(n, lSeid)
 //@   ensures [which]  err == nil ==> sess == n.sess[lSeid-1] && sess.LocalID == lSeid
@@ -28,6 +29,7 @@ package pfcp
 //@      forall i int :: 0 <= i && i < len(n.sess) && n.sess[i] != nil ==> n.sess[i].rnode != nil && n.sess[i].rnode.addr != nil
 
 //@ func (n *LocalNode) RemoteSess(rSeid uint64, addr net.Addr) (sess *Sess, err error)
+//@   locals s:*pfcp.Sess
 //@   requires n != nil && lnodeWF(n) && sessLinked(n) && addr != nil
 //@   ensures [hit]  err == nil ==> sess != nil && live(n, sess.LocalID) && n.sess[sess.LocalID-1] == sess &&
 //@                    sess.RemoteID == rSeid && addrStr(sess.rnode.addr) == addrStr(addr)
@@ -42,6 +44,7 @@ package pfcp
 //@                        !(n.sess[j].RemoteID == rSeid && addrStr(n.sess[j].rnode.addr) == addrStr(addr))
 
 //@ func (n *LocalNode) NewSess(rSeid uint64, qlen int) (s *Sess)
+//@   locals s:*pfcp.Sess | last:int
 //@   requires n != nil && lnodeWF(n)
 //@   ensures [fresh]  fresh(s) && s.RemoteID == rSeid && s.qlen == qlen
 //@   ensures [maps]   fresh(s.PDRIDs) && fresh(s.FARIDs) && fresh(s.QERIDs) && fresh(s.URRIDs) && fresh(s.BARIDs) && fresh(s.q) && s.FARIDs != s.QERIDs
@@ -100,6 +103,7 @@ package pfcp
 //@ opaque pred sessOK(s *Sess) = sessWF(s) && book(s) && qWF(s)
 
 //@ func (s *Sess) CreateFAR(req *ie.IE) (err error)
+//@   locals id:uint32 | err:error
 //@   requires sessOK(s) && req != nil
 //@   ensures [ok]    sessOK(s)
 //@   ensures [frameok] forall t *Sess :: old(allocated(t)) && old(sessOK(t)) && t != s && t.LocalID != s.LocalID ==> sessOK(t)
@@ -119,6 +123,7 @@ package pfcp
 //@     assert [recorded] val(req.FARID()) in s.FARIDs
 
 //@ func (s *Sess) UpdateFAR(req *ie.IE) (err error)
+//@   locals id:uint32 | err:error | ok:bool
 //@   requires sessOK(s) && req != nil
 //@   ensures [ok]    sessOK(s)
 //@   modifies nothing
@@ -130,6 +135,7 @@ package pfcp
 //@     assert [seid] arg0 == s.LocalID && arg1 == req
 
 //@ func (s *Sess) RemoveFAR(req *ie.IE) (err error)
+//@   locals id:uint32 | err:error | ok:bool
 //@   requires sessOK(s) && req != nil
 //@   ensures [ok]    sessOK(s)
 //@   ensures [frameok] forall t *Sess :: old(allocated(t)) && old(sessOK(t)) && t != s && t.LocalID != s.LocalID ==> sessOK(t)
@@ -148,6 +154,7 @@ package pfcp
 //@     assert [seid] arg0 == s.LocalID && arg1 == req
 
 //@ func (s *Sess) CreateQER(req *ie.IE) (err error)
+//@   locals id:uint32 | err:error
 //@   requires sessOK(s) && req != nil
 //@   ensures [ok]    sessOK(s)
 //@   ensures [frameok] forall t *Sess :: old(allocated(t)) && old(sessOK(t)) && t != s && t.LocalID != s.LocalID ==> sessOK(t)
@@ -167,6 +174,7 @@ package pfcp
 //@     assert [recorded] val(req.QERID()) in s.QERIDs
 
 //@ func (s *Sess) UpdateQER(req *ie.IE) (err error)
+//@   locals id:uint32 | err:error | ok:bool
 //@   requires sessOK(s) && req != nil
 //@   ensures [ok]    sessOK(s)
 //@   modifies nothing
@@ -178,6 +186,7 @@ package pfcp
 //@     assert [seid] arg0 == s.LocalID && arg1 == req
 
 //@ func (s *Sess) RemoveQER(req *ie.IE) (err error)
+//@   locals id:uint32 | err:error | ok:bool
 //@   requires sessOK(s) && req != nil
 //@   ensures [ok]    sessOK(s)
 //@   ensures [frameok] forall t *Sess :: old(allocated(t)) && old(sessOK(t)) && t != s && t.LocalID != s.LocalID ==> sessOK(t)
@@ -196,6 +205,7 @@ package pfcp
 //@     assert [seid] arg0 == s.LocalID && arg1 == req
 
 //@ func (s *Sess) CreateBAR(req *ie.IE) (err error)
+//@   locals id:uint8 | err:error
 //@   requires sessOK(s) && req != nil
 //@   ensures [ok]    sessOK(s)
 //@   ensures [frameok] forall t *Sess :: old(allocated(t)) && old(sessOK(t)) && t != s && t.LocalID != s.LocalID ==> sessOK(t)
@@ -215,6 +225,7 @@ package pfcp
 //@     assert [recorded] val(req.BARID()) in s.BARIDs
 
 //@ func (s *Sess) UpdateBAR(req *ie.IE) (err error)
+//@   locals id:uint8 | err:error | ok:bool
 //@   requires sessOK(s) && req != nil
 //@   ensures [ok]    sessOK(s)
 //@   modifies nothing
@@ -226,6 +237,7 @@ package pfcp
 //@     assert [seid] arg0 == s.LocalID && arg1 == req
 
 //@ func (s *Sess) RemoveBAR(req *ie.IE) (err error)
+//@   locals id:uint8 | err:error | ok:bool
 //@   requires sessOK(s) && req != nil
 //@   ensures [ok]    sessOK(s)
 //@   ensures [frameok] forall t *Sess :: old(allocated(t)) && old(sessOK(t)) && t != s && t.LocalID != s.LocalID ==> sessOK(t)
@@ -250,6 +262,7 @@ package pfcp
 //@ pred ieWF(req *ie.IE) = req != nil && (forall j int :: 0 <= j && j < len(req.ChildIEs) ==> req.ChildIEs[j] != nil)
 
 //@ func (s *Sess) CreateURR(req *ie.IE) (err error)
+//@   locals id:uint32 | err:error | mInfo:*ie.IE | x:*ie.IE
 //@   requires sessOK(s) && ieWF(req)
 //@   ensures [ok]    sessOK(s)
 //@   ensures [frameok]  forall t *Sess :: old(allocated(t)) && old(sessOK(t)) && t != s && t.LocalID != s.LocalID ==> sessOK(t)
@@ -283,6 +296,7 @@ package pfcp
 //@      s.URRIDs[u].MBQE == old(s.URRIDs[u].MBQE) && s.URRIDs[u].INAM == old(s.URRIDs[u].INAM) && s.URRIDs[u].RADI == old(s.URRIDs[u].RADI) &&
 //@      s.URRIDs[u].ISTM == old(s.URRIDs[u].ISTM) && s.URRIDs[u].MNOP == old(s.URRIDs[u].MNOP)
 //@ func (s *Sess) UpdateURR(req *ie.IE) (usars []report.USAReport, err error)
+//@   locals id:uint32 | err:error | urrInfo:*pfcp.URRInfo | ok:bool | x:*ie.IE | usars:[]report.USAReport
 //@   requires sessOK(s) && ieWF(req)
 //@   ensures [seqn]  forall u uint32 :: u in s.URRIDs ==> s.URRIDs[u].SEQN == old(s.URRIDs[u].SEQN) && s.URRIDs[u].refPdrNum == old(s.URRIDs[u].refPdrNum)
 //@   ensures [ok]    sessOK(s)
@@ -310,6 +324,7 @@ package pfcp
 //@     assert [seid] arg0 == s.LocalID && arg1 == req
 
 //@ func (s *Sess) RemoveURR(req *ie.IE) (usars []report.USAReport, err error)
+//@   locals id:uint32 | err:error | info:*pfcp.URRInfo | ok:bool | usars:[]report.USAReport | i:int
 //@   requires sessOK(s) && req != nil
 //@   ensures [ok]    sessOK(s)
 //@   ensures [frameok]  forall t *Sess :: old(allocated(t)) && old(sessOK(t)) && t != s && t.LocalID != s.LocalID ==> sessOK(t)
@@ -333,6 +348,7 @@ package pfcp
 //@     assert [seid] arg0 == s.LocalID && arg1 == req
 
 //@ func (s *Sess) QueryURR(req *ie.IE) (usars []report.USAReport, err error)
+//@   locals id:uint32 | err:error | ok:bool | usars:[]report.USAReport | i:int
 //@   requires sessOK(s) && req != nil
 //@   ensures [immer] err == nil ==> (forall j int :: 0 <= j && j < len(usars) ==> usars[j].USARTrigger.Flags & report.USAR_TRIG_IMMER != 0)
 //@   ensures [errnil] err != nil ==> usars == nil
@@ -352,6 +368,7 @@ package pfcp
 //@     assert [seid] arg0 == s.LocalID && arg1 == val(req.URRID())
 
 //@ func (s *Sess) diassociateURR(urrid uint32) (usars []report.USAReport)
+//@   locals urrInfo:*pfcp.URRInfo | ok:bool | usars:[]report.USAReport | err:error | i:int
 //@   requires sessOK(s)
 //@   ensures [absent]  !(urrid in s.URRIDs) ==> usars == nil
 //@   ensures [dec]     urrid in s.URRIDs && old(s.URRIDs[urrid].refPdrNum) > 0 ==> s.URRIDs[urrid].refPdrNum == old(s.URRIDs[urrid].refPdrNum) - 1
@@ -378,6 +395,7 @@ package pfcp
 //@ pred urrsOK(s *Sess) = s != nil && (forall u uint32 :: u in s.URRIDs ==> s.URRIDs[u] != nil)
 
 //@ func (s *Sess) URRSeq(urrid uint32) (seq uint32)
+//@   locals info:*pfcp.URRInfo | ok:bool | seq:uint32
 //@   requires urrsOK(s)
 //@   ensures [known]   urrid in s.URRIDs ==> seq == old(s.URRIDs[urrid].SEQN) && s.URRIDs[urrid].SEQN == seq + 1
 //@   ensures [unknown] !(urrid in s.URRIDs) ==> seq == 0
@@ -387,6 +405,7 @@ package pfcp
 // A-PDRID: the PDR id the session layer computes from a Create/Update PDR IE (last decodable PDR-ID child) is the
 // id under which the driver installs the rule (pdrIdOf, see internal/forwarder contracts).
 //@ func (s *Sess) CreatePDR(req *ie.IE) (err error)
+//@   locals ies:[]*ie.IE | err:error | pdrid:uint16 | urrids:map[uint32]struct{} | i:*ie.IE | v:uint16 | err1:error | v:uint32 | err1:error | dup:bool | urrInfo:*pfcp.URRInfo | ok:bool
 //@   requires sessOK(s) && req != nil
 //@   ensures [ok]    sessOK(s)
 //@   ensures [frameok]  forall t *Sess :: old(allocated(t)) && old(sessOK(t)) && t != s && t.LocalID != s.LocalID ==> sessOK(t)
@@ -414,6 +433,7 @@ package pfcp
 //@     assert [recorded] pdrid in s.PDRIDs
 
 //@ func (s *Sess) UpdatePDR(req *ie.IE) (usars []report.USAReport, err error)
+//@   locals ies:[]*ie.IE | err:error | pdrid:uint16 | newUrrids:map[uint32]struct{} | i:*ie.IE | v:uint16 | err1:error | v:uint32 | err1:error | pdrInfo:*pfcp.PDRInfo | ok:bool | usars:[]report.USAReport | urrid:uint32 | usar:[]report.USAReport | urrid:uint32 | urrInfo:*pfcp.URRInfo | ok1:bool
 //@   requires sessOK(s) && req != nil
 //@   ensures [ok]    sessOK(s)
 //@   ensures [frameok]  forall t *Sess :: old(allocated(t)) && old(sessOK(t)) && t != s && t.LocalID != s.LocalID ==> sessOK(t)
@@ -445,6 +465,7 @@ package pfcp
 //@     assert [seid]    arg0 == s.LocalID && arg1 == req
 
 //@ func (s *Sess) RemovePDR(req *ie.IE) (usars []report.USAReport, err error)
+//@   locals pdrid:uint16 | err:error | pdrInfo:*pfcp.PDRInfo | ok:bool | usars:[]report.USAReport | urrid:uint32 | usar:[]report.USAReport
 //@   requires sessOK(s) && req != nil
 //@   ensures [ok]    sessOK(s)
 //@   ensures [frameok]  forall t *Sess :: old(allocated(t)) && old(sessOK(t)) && t != s && t.LocalID != s.LocalID ==> sessOK(t)
@@ -470,6 +491,7 @@ package pfcp
 // Buffered packet queues (C13) and session close (C01, C05, C12, C13)
 
 //@ func (s *Sess) Close() (usars []report.USAReport)
+//@   locals id:uint32 | i:*ie.IE | err:error | id:uint32 | i:*ie.IE | err:error | usars:[]report.USAReport | id:uint32 | i:*ie.IE | rs:[]report.USAReport | err:error | id:uint8 | i:*ie.IE | err:error | id:uint16 | i:*ie.IE | rs:[]report.USAReport | err:error | q:chan []byte
 //@   requires sessOK(s)
 //@   ensures [withdrawn] forall k RuleKey :: k.seid == s.LocalID ==> !(k in DP)
 //@   ensures [others]    forall k RuleKey :: k.seid != s.LocalID ==> ((k in DP) == (k in old(DP))) && ((k in CREATED) == (k in old(CREATED)))
@@ -517,6 +539,7 @@ package pfcp
 
 // Queue model: a channel holds the packets at buffer positions chhead(c) .. chtail(c)-1, oldest first.
 //@ func (s *Sess) Push(pdrid uint16, p []byte)
+//@   locals pkt:[]byte | q:chan []byte | ok:bool
 //@   requires sessOK(s)
 //@   ensures [ok]    sessOK(s)
 //@   ensures [frameok]  forall t *Sess :: old(allocated(t)) && old(sessOK(t)) && t != s && t.LocalID != s.LocalID ==> sessOK(t)
@@ -540,6 +563,7 @@ package pfcp
 //@   serves C13 C05 C07 C11 C12
 
 //@ func (s *Sess) Len(pdrid uint16) (n int)
+//@   locals q:chan []byte | ok:bool
 //@   requires sessOK(s)
 //@   ensures [len]    pdrid in s.q ==> n == len(s.q[pdrid])
 //@   ensures [absent] !(pdrid in s.q) ==> n == 0
@@ -550,6 +574,7 @@ package pfcp
 //@   serves C13 C07 C11 C12
 
 //@ func (s *Sess) Pop(pdrid uint16) (pkt []byte, ok bool)
+//@   locals q:chan []byte | ok:bool | pkt:[]byte
 //@   requires sessOK(s)
 //@   ensures [ok]     sessOK(s) && ownsMaps(s)
 //@   ensures [frameok]  forall t *Sess :: old(allocated(t)) && old(sessOK(t)) && t != s && t.LocalID != s.LocalID ==> sessOK(t)
@@ -575,6 +600,7 @@ package pfcp
 //@ pred nodeWF(rn *RemoteNode) = rn != nil && rn.local != nil && rn.sess != nil && rn.driver != nil && rn.addr != nil
 
 //@ func (n *LocalNode) DeleteSess(lSeid uint64) (usars []report.USAReport, err error)
+//@   locals i:int | usars:[]report.USAReport
 //@   requires n != nil && lnodeWF(n) && (live(n, lSeid) ==> sessOK(n.sess[lSeid-1]))
 //@   ensures [nf]     !old(live(n, lSeid)) ==> err != nil && usars == nil && DP == old(DP) && CREATED == old(CREATED)
 //@   ensures [del]    old(live(n, lSeid)) ==> err == nil
@@ -606,11 +632,13 @@ package pfcp
 //@     set CREATED := restrict(CREATED, forall k RuleKey :: k.seid != lSeid)
 
 //@ func NewRemoteNode(id string, addr net.Addr, local *LocalNode, driver forwarder.Driver, log *logrus.Entry) (n *RemoteNode)
+//@   locals n:*pfcp.RemoteNode
 //@   ensures [init] fresh(n) && n.ID == id && n.addr == addr && n.local == local && n.driver == driver && fresh(n.sess) && len(n.sess) == 0
 //@   modifies nothing
 //@   serves C05
 
 //@ func (n *RemoteNode) Sess(lSeid uint64) (sess *Sess, err error)
+//@   locals ok:bool
 //@   requires nodeWF(n) && lnodeWF(n.local)
 //@   ensures [found] err == nil ==> lSeid in n.sess && live(n.local, lSeid) && sess == n.local.sess[lSeid-1]
 //@   ensures [nf]    !(lSeid in n.sess) ==> err != nil && sess == nil
@@ -618,6 +646,7 @@ package pfcp
 //@   serves C04 C05
 
 //@ func (n *RemoteNode) NewSess(rSeid uint64) (s *Sess)
+//@   locals s:*pfcp.Sess
 //@   requires nodeWF(n) && lnodeWF(n.local) && dpLive(n.local)
 //@   ensures [fresh]  fresh(s) && s.RemoteID == rSeid && s.rnode == n && s.qlen == 512
 //@   ensures [id]     s.LocalID != 0 && (forall id uint64 :: id == s.LocalID ==> !old(live(n.local, id))) && live(n.local, s.LocalID) && n.local.sess[s.LocalID-1] == s
@@ -637,6 +666,7 @@ package pfcp
 //@   serves C04 C05 C01 C13
 
 //@ func (n *RemoteNode) DeleteSess(lSeid uint64) (usars []report.USAReport)
+//@   locals ok:bool | usars:[]report.USAReport | err:error
 //@   requires nodeWF(n) && lnodeWF(n.local) && (live(n.local, lSeid) ==> sessOK(n.local.sess[lSeid-1]))
 //@   ensures [notmine] !old(lSeid in n.sess) ==> usars == nil && DP == old(DP) && CREATED == old(CREATED) &&
 //@                       (forall id uint64 :: live(n.local, id) == old(live(n.local, id)))
@@ -674,6 +704,7 @@ package pfcp
 // LocalNode.Reset is not called by go-upf itself (dead code), but it writes the session table: under contract so
 // that the writers obligations on LocalNode.sess / LocalNode.free have no function outside the verified set.
 //@ func (n *LocalNode) Reset()
+//@   locals sess:*pfcp.Sess
 //@   requires n != nil && lnodeWF(n) && allSessOK(n)
 //@   ensures [none] len(n.sess) == 0 && len(n.free) == 0 && (forall id uint64 :: !live(n, id))
 //@   ensures [sub]  forall k RuleKey :: k in DP ==> k in old(DP)
@@ -689,6 +720,7 @@ package pfcp
 //@     invariant [sub]  forall k RuleKey :: k in DP ==> k in old(DP)
 
 //@ func (n *RemoteNode) Reset()
+//@   locals id:uint64
 //@   requires nodeWF(n) && lnodeWF(n.local) && allSessOK(n.local) && dpLive(n.local)
 //@   ensures [gone]   forall id uint64 :: id in old(n.sess) ==> !live(n.local, id)
 //@   ensures [sub]    forall k RuleKey :: k in DP ==> k in old(DP)
@@ -730,6 +762,7 @@ package pfcp
 //@ pred srvCfg(s *PfcpServer) = s != nil && s.cfg != nil && s.cfg.Pfcp != nil && s.rxTrans != nil && s.txTrans != nil && s.cfg.Pfcp.MaxRetrans < 255
 
 //@ func (rx *RxTransaction) startTimer() (t *time.Timer)
+//@   locals t:*time.Timer
 //@   requires rx != nil
 //@   ensures [timer] t != nil
 //@   modifies nothing
@@ -738,6 +771,7 @@ package pfcp
 //@     assert [window] arg0 == rx.timeout
 
 //@ func NewRxTransaction(server *PfcpServer, raddr net.Addr, seq uint32) (rx *RxTransaction)
+//@   locals rx:*pfcp.RxTransaction
 //@   requires srvCfg(server)
 //@   requires server.cfg.Pfcp.MaxRetrans < 255
 //@   ensures [init]   fresh(rx) && rx.server == server && rx.raddr == raddr && rx.seq == seq && rx.id == trKey(raddr, seq) &&
@@ -747,6 +781,7 @@ package pfcp
 //@   serves C06
 
 //@ func (rx *RxTransaction) send(rsp message.Message) (err error)
+//@   locals b:[]byte | err:error
 //@   requires rx != nil && rx.server != nil && rx.server.conn != nil && rsp != nil
 //@   ensures [cached] err == nil ==> len(rx.msgBuf) > 0
 //@   ensures [same]   rx.raddr == old(rx.raddr) && rx.id == old(rx.id) && rx.seq == old(rx.seq)
@@ -757,6 +792,7 @@ package pfcp
 //@     assert [bytes] arg0 == rx.msgBuf && len(arg0) > 0
 
 //@ func (rx *RxTransaction) recv(req message.Message, rxTrFound bool) (need bool, err error)
+//@   locals err:error
 //@   requires rx != nil && rx.server != nil && rx.server.conn != nil
 //@   ensures [new]  !rxTrFound ==> need && err == nil
 //@   ensures [dup]  rxTrFound ==> !need
@@ -773,6 +809,7 @@ package pfcp
 //@   serves C06
 
 //@ func (tx *TxTransaction) startTimer() (t *time.Timer)
+//@   locals t:*time.Timer
 //@   requires tx != nil
 //@   ensures [timer] t != nil
 //@   modifies nothing
@@ -781,6 +818,7 @@ package pfcp
 //@     assert [period] arg0 == tx.retransTimeout
 
 //@ func NewTxTransaction(server *PfcpServer, raddr net.Addr, seq uint32) (tx *TxTransaction)
+//@   locals tx:*pfcp.TxTransaction
 //@   requires srvCfg(server)
 //@   ensures [init] fresh(tx) && tx.server == server && tx.raddr == raddr && tx.seq == seq && tx.id == trKey(raddr, seq) &&
 //@                  tx.retransTimeout == server.cfg.Pfcp.RetransTimeout && tx.maxRetrans == server.cfg.Pfcp.MaxRetrans &&
@@ -789,6 +827,7 @@ package pfcp
 //@   serves C09
 
 //@ func (tx *TxTransaction) send(req message.Message) (err error)
+//@   locals b:[]byte | err:error
 //@   requires tx != nil && tx.server != nil && tx.server.conn != nil && reqOK(req)
 //@   ensures [stored] tx.req == req && len(tx.msgBuf) > 0 && tx.timer != nil
 //@   ensures [seq]    hdrOf(req).SequenceNumber == tx.seq
@@ -811,6 +850,7 @@ package pfcp
 //@     assert [timer] recv == old(tx.timer)
 
 //@ func (tx *TxTransaction) handleTimeout()
+//@   locals err:error | err:error
 //@   requires tx != nil && tx.server != nil && tx.server.conn != nil && tx.server.txTrans != nil && reqOK(tx.req)
 //@   ensures [retry]  old(tx.retransCount) < tx.maxRetrans ==> tx.retransCount == old(tx.retransCount) + 1 && tx.timer != nil &&
 //@                      (forall k string :: (k in tx.server.txTrans) == (k in old(tx.server.txTrans)))
@@ -832,6 +872,7 @@ package pfcp
 //@ opaque pred srvWF(s *PfcpServer) = srvCfg(s) && s.conn != nil && s.driver != nil && s.rnodes != nil && rxWF(s) && txWF(s) && s.txSeq < 1<<24
 
 //@ func (s *PfcpServer) sendReqTo(msg message.Message, addr net.Addr) (err error)
+//@   locals txtr:*pfcp.TxTransaction
 //@   requires srvWF(s) && reqOK(msg)
 //@   requires !(trKey(addr, s.txSeq) in s.txTrans)
 //@   ensures [reg]     trKey(addr, old(s.txSeq)) in s.txTrans && s.txTrans[trKey(addr, old(s.txSeq))].seq == old(s.txSeq) &&
@@ -845,6 +886,7 @@ package pfcp
 //@   serves C09 C10
 
 //@ func (s *PfcpServer) sendRspTo(msg message.Message, addr net.Addr) (err error)
+//@   locals trID:string | rxtr:*pfcp.RxTransaction | ok:bool
 //@   requires srvWF(s) && msg != nil && hdrOf(msg) != nil
 //@   ensures [wf] srvWF(s)
 //@   modifies s.rxTrans[_].msgBuf
@@ -854,6 +896,7 @@ package pfcp
 //@     assert [tr] recv == s.rxTrans[trKey(addr, hdrOf(msg).SequenceNumber)] && arg0 == msg
 
 //@ func (s *PfcpServer) PopBufPkt(seid uint64, pdrid uint16) (pkt []byte, ok bool)
+//@   locals sess:*pfcp.Sess | err:error
 //@   requires s != nil && lnodeWF(s.lnode) && (live(s.lnode, seid) ==> sessOK(s.lnode.sess[seid-1]))
 //@   ensures [dead] !live(s.lnode, seid) ==> !ok && pkt == nil
 //@   modifies chans(s.lnode.sess[seid-1].q)
@@ -897,6 +940,7 @@ package pfcp
 
 // A-HDRWF: a parsed request has a header (go-pfcp's parser always sets it)
 //@ func (s *PfcpServer) handleHeartbeatRequest(req *message.HeartbeatRequest, addr net.Addr)
+//@   locals rsp:*message.HeartbeatResponse | err:error
 //@   requires s != nil && srvWF(s) && req != nil && req.Header != nil
 //@   ensures [wf] srvWF(s)
 //@   modifies s.rxTrans[_].msgBuf
@@ -908,12 +952,14 @@ package pfcp
 //@     assert [to] arg1 == addr && arg0 == iface(rsp)
 
 //@ func (s *PfcpServer) NewNode(id string, addr net.Addr, driver forwarder.Driver) (n *RemoteNode)
+//@   locals n:*pfcp.RemoteNode
 //@   requires s != nil
 //@   ensures [init] fresh(n) && n.ID == id && n.addr == addr && n.local == s.lnode && n.driver == driver && fresh(n.sess) && len(n.sess) == 0
 //@   modifies nothing
 //@   serves C05
 
 //@ func (s *PfcpServer) handleAssociationSetupRequest(req *message.AssociationSetupRequest, addr net.Addr)
+//@   locals rnodeid:string | err:error | node:*pfcp.RemoteNode | ok:bool | node:*pfcp.RemoteNode | rsp:*message.AssociationSetupResponse
 //@   requires s != nil && srvInv(s) && req != nil && req.Header != nil && addr != nil
 //@   ensures [inv]      srvInv(s)
 //@   ensures [early]    (req.NodeID == nil || !ok(req.NodeID.NodeID())) ==> DP == old(DP) && (forall id uint64 :: live(s.lnode, id) == old(live(s.lnode, id)))
@@ -955,6 +1001,7 @@ package pfcp
 //@     assert [to] arg1 == addr && arg0 == iface(rsp)
 
 //@ func (s *PfcpServer) handleSessionDeletionRequest(req *message.SessionDeletionRequest, addr net.Addr)
+//@   locals lSeid:uint64 | sess:*pfcp.Sess | err:error | rsp:*message.SessionDeletionResponse | usars:[]report.USAReport | rsp:*message.SessionDeletionResponse | r:report.USAReport | urrInfo:*pfcp.URRInfo | ok:bool
 //@   requires s != nil && srvInv(s) && req != nil && req.Header != nil
 //@   ensures [inv]    srvInv(s)
 //@   ensures [nf]     !old(live(s.lnode, hdrSEID(req.Header))) ==> DP == old(DP) && CREATED == old(CREATED) && (forall id uint64 :: live(s.lnode, id) == old(live(s.lnode, id)))
@@ -1009,6 +1056,7 @@ package pfcp
 // Session Report Response: a response with SEID 0 in its header means the peer no longer knows the session the
 // report was about; exactly the session whose CP-SEID and peer address match the answered request is removed.
 //@ func (s *PfcpServer) handleSessionReportResponse(rsp *message.SessionReportResponse, addr net.Addr, req message.Message)
+//@   locals sess:*pfcp.Sess | err:error | sess:*pfcp.Sess | err:error
 //@   requires s != nil && srvInv(s) && rsp != nil && rsp.Header != nil && req != nil && hdrOf(req) != nil && addr != nil
 //@   ensures [inv]     srvInv(s)
 //@   ensures [nonzero] rsp.Header.SEID != 0 ==> DP == old(DP) && CREATED == old(CREATED) && (forall id uint64 :: live(s.lnode, id) == old(live(s.lnode, id)))
@@ -1041,6 +1089,7 @@ package pfcp
 // The new session is reachable under its own UP-SEID from the moment NewSess returns; the rule loops change only
 // that session (their [isol] invariants) and carry the whole-node invariant as one opaque fact.
 //@ func (s *PfcpServer) handleSessionEstablishmentRequest(req *message.SessionEstablishmentRequest, addr net.Addr)
+//@   locals rnodeid:string | err:error | rnode:*pfcp.RemoteNode | ok:bool | fseid:*ie.FSEIDFields | sess:*pfcp.Sess | i:*ie.IE | i:*ie.IE | i:*ie.IE | CreatedPDRList:[]*ie.IE | i:*ie.IE | ueIPAddress:*ie.UEIPAddressFields | pdrId:uint16 | ueIPv4:string | v4:net.IP | addrv4:*net.IPAddr | v6:net.IP | ies:[]*ie.IE | rsp:*message.SessionEstablishmentResponse
 //@   requires s != nil && srvInv(s) && req != nil && req.Header != nil && addr != nil && estReqWF(req)
 //@   ensures [inv]    srvInv(s)
 //@   ensures [early]  old(estRejected(s, req)) ==> DP == old(DP) && CREATED == old(CREATED) && (forall id uint64 :: live(s.lnode, id) == old(live(s.lnode, id)))
@@ -1113,6 +1162,7 @@ package pfcp
 //@      (forall i int :: 0 <= i && i < len(req.QueryURR) ==> req.QueryURR[i] != nil)
 
 //@ func (s *PfcpServer) handleSessionModificationRequest(req *message.SessionModificationRequest, addr net.Addr)
+//@   locals sess:*pfcp.Sess | err:error | rsp:*message.SessionModificationResponse | rnodeid:string | err1:error | i:*ie.IE | i:*ie.IE | i:*ie.IE | i:*ie.IE | i:*ie.IE | i:*ie.IE | usars:[]report.USAReport | i:*ie.IE | rs:[]report.USAReport | err1:error | i:*ie.IE | rs:[]report.USAReport | err1:error | i:*ie.IE | i:*ie.IE | i:*ie.IE | rs:[]report.USAReport | err1:error | i:*ie.IE | rs:[]report.USAReport | err1:error | i:*ie.IE | rs:[]report.USAReport | err1:error | rsp:*message.SessionModificationResponse | r:report.USAReport | urrInfo:*pfcp.URRInfo | ok:bool
 //@   requires s != nil && srvInv(s) && req != nil && req.Header != nil && addr != nil && modReqWF(req)
 //@   ensures [inv]    srvInv(s)
 //@   ensures [nf]     !old(live(s.lnode, hdrSEID(req.Header))) ==> DP == old(DP) && CREATED == old(CREATED)
@@ -1235,6 +1285,7 @@ package pfcp
 // ones kept) or skipped because its URR is unknown to the session - SKIPPED counts the latter, [complete] adds up.
 //@ ghost SKIPPED int
 //@ func (s *PfcpServer) serveUSAReport(addr net.Addr, lSeid uint64, usars []report.USAReport) (err error)
+//@   locals sess:*pfcp.Sess | err:error | req:*message.SessionReportRequest | r:report.USAReport | urrInfo:*pfcp.URRInfo | ok:bool
 //@   requires s != nil && srvInv(s) && addr != nil
 //@   ensures [inv]   srvInv(s)
 //@   ensures [dead]  !old(live(s.lnode, lSeid)) ==> err != nil && s.txTrans == old(s.txTrans) && len(s.txTrans) == old(len(s.txTrans)) && s.txSeq == old(s.txSeq)
@@ -1276,6 +1327,7 @@ package pfcp
 //@     assert [to]    arg1 == addr && arg0 == iface(req) && req.Header.SEID == sess.RemoteID
 
 //@ func (s *PfcpServer) serveDLDReport(addr net.Addr, lSeid uint64, pdrid uint16) (err error)
+//@   locals sess:*pfcp.Sess | err:error | req:*message.SessionReportRequest
 //@   requires s != nil && srvInv(s) && addr != nil
 //@   ensures [inv]   srvInv(s)
 //@   ensures [dp]    DP == old(DP) && CREATED == old(CREATED)
@@ -1297,6 +1349,7 @@ package pfcp
 // ServeReport: a batch of reports for one SEID.  Buffered packets go to that session's own queue, notifications and
 // usage reports go out addressed to the peer SEID of that session, to <node id of the owning node>:8805.
 //@ func (s *PfcpServer) ServeReport(sr *report.SessReport)
+//@   locals sess:*pfcp.Sess | err:error | addr:string | laddr:*net.UDPAddr | usars:[]report.USAReport | rpt:report.Report | err:error | err:error
 //@   requires s != nil && srvInv(s) && sr != nil
 //@   requires [A-BATCH] forall i int :: 0 <= i && i < len(sr.Reports) ==> sr.Reports[i] != nil
 //@   ensures [inv]   srvInv(s)
@@ -1374,6 +1427,7 @@ package pfcp
 //@      nodeInv(s.lnode) && nodesWF(s) && linked(s) && registered(s) && owned(s)
 
 //@ func (s *PfcpServer) main(wg *sync.WaitGroup)
+//@   locals p:interface{} | err:error | laddr:*net.UDPAddr | conn:*net.UDPConn | sr:report.SessReport | rcvPkt:pfcp.ReceivePacket | msg:message.Message | err:error | trID:string | rx:*pfcp.RxTransaction | ok:bool | needDispatch:bool | err1:error | tx:*pfcp.TxTransaction | ok:bool | req:message.Message | trTo:pfcp.TransactionTimeout | tx:*pfcp.TxTransaction | ok:bool | rx:*pfcp.RxTransaction | ok:bool
 //@   requires s != nil && srvPre(s) && wg != nil
 //@   modifies *
 //@   serves C06 C09 C08 C07
@@ -1422,6 +1476,7 @@ package pfcp
 // [closing] (C17, one link of 'Stop stops'): the receiver returns only after a failed read (Stop closes the socket), and the
 // last thing it queues before returning is the close marker - an empty ReceivePacket - on which the event loop ends.
 //@ func (s *PfcpServer) receiver(wg *sync.WaitGroup)
+//@   locals p:interface{} | buf:[]byte | n:int | addr:net.Addr | err:error | msgBuf:[]byte
 //@   requires s != nil && s.conn != nil && s.rcvCh != nil && !closed(s.rcvCh) && wg != nil
 //@   ensures [closing] len(chat(s.rcvCh, chtail(s.rcvCh) - 1).Buf) == 0
 //@   modifies chanstate(s.rcvCh)
@@ -1436,6 +1491,7 @@ package pfcp
 // plane holds no rule when the server is created.  recoveryTime is written here and by no function under contract
 // (every handler's frame leaves it alone), so Heartbeat and Association Setup responses carry the same stamp.
 //@ func NewPfcpServer(cfg *factory.Config, driver forwarder.Driver) (s *PfcpServer)
+//@   locals listen:string
 //@   requires cfg != nil && cfg.Pfcp != nil && driver != nil && cfg.Pfcp.MaxRetrans < 255
 //@   requires [A-DPEMPTY] (forall k RuleKey :: !(k in DP)) && (forall k RuleKey :: !(k in CREATED))
 //@   ensures [pre]   fresh(s) && srvPre(s)
@@ -1448,6 +1504,7 @@ package pfcp
 // The UPF's own node id as an IE (C08): an IPv4 literal, an IPv6 literal or else an FQDN, built from the given string.
 //@ ghost NODEIE *ie.IE
 //@ func newIeNodeID(nodeID string) (r *ie.IE)
+//@   locals ip:net.IP
 //@   ensures [v4]   net.ParseIP(nodeID) != nil && net.ParseIP(nodeID).To4() != nil ==> r == ie.NewNodeID(nodeID, "", "")
 //@   ensures [v6]   net.ParseIP(nodeID) != nil && net.ParseIP(nodeID).To4() == nil ==> r == ie.NewNodeID("", nodeID, "")
 //@   ensures [fqdn] net.ParseIP(nodeID) == nil ==> r == ie.NewNodeID("", "", nodeID)
